@@ -367,6 +367,14 @@ fn cfg_json(run: &Run) -> Value {
     })
 }
 
+/// number of coordinates strictly outside their declared range (exact f64 comparison)
+fn outside(v: &[f64], bounds: &[(f64, f64)]) -> usize {
+    v.iter()
+        .zip(bounds.iter())
+        .filter(|(x, (lo, hi))| !(**x >= *lo && **x <= *hi))
+        .count()
+}
+
 /// Coordinate (1-based) of the proposal: the one cell that differs from `base`; if none
 /// differs, the coordinate whose value equals the hooked `before` at the hooked index.
 fn changed_coord(base: &[f64], now: &[f64], hook_index: usize) -> usize {
@@ -432,7 +440,7 @@ pub fn project(runs: &[Run]) -> (Vec<String>, Vec<i64>, FileStats) {
         let start_toks = p.toks(&run.start_vec);
         lines.push(
             json!({"ev": "start", "run": ri, "desc": run.desc, "cfg": cfg_json(run),
-                   "val": start_toks, "chained": run.chained})
+                   "val": start_toks, "chained": run.chained, "out": outside(&run.start_vec, &run.bounds)})
             .to_string(),
         );
         // state of the fold
@@ -466,14 +474,14 @@ pub fn project(runs: &[Run]) -> (Vec<String>, Vec<i64>, FileStats) {
                             st.undefined += 1;
                         }
                         lines.push(
-                            json!({"ev": "eval", "val": p.toks(vec), "score": p.rank(*s)})
+                            json!({"ev": "eval", "val": p.toks(vec), "score": p.rank(*s), "out": outside(vec, &run.bounds)})
                                 .to_string(),
                         );
                     } else if returned {
                         lines.push(json!({"ev": "observe", "score": p.rank(*s)}).to_string());
                     } else {
                         lines.push(
-                            json!({"ev": "final", "val": p.toks(vec), "score": p.rank(*s)})
+                            json!({"ev": "final", "val": p.toks(vec), "score": p.rank(*s), "out": outside(vec, &run.bounds)})
                                 .to_string(),
                         );
                     }
@@ -518,7 +526,7 @@ pub fn project(runs: &[Run]) -> (Vec<String>, Vec<i64>, FileStats) {
                         };
                         lines.push(
                             json!({"ev": "propose", "i": i, "before": p.tok(*before),
-                                   "val": p.toks(vec), "rel": rel})
+                                   "val": p.toks(vec), "rel": rel, "out": outside(vec, &run.bounds)})
                             .to_string(),
                         );
                     }
@@ -581,7 +589,7 @@ pub fn project(runs: &[Run]) -> (Vec<String>, Vec<i64>, FileStats) {
                         lines.push(
                             json!({"ev": "decide", "val": p.toks(vec),
                                    "cur": p.rank(Some(*score_current)),
-                                   "rej": loop_rejections, "kt": kt_json(*kt)})
+                                   "rej": loop_rejections, "kt": kt_json(*kt), "out": outside(vec, &run.bounds)})
                             .to_string(),
                         );
                     }
